@@ -99,6 +99,23 @@ func init() {
 				}
 				o.do(fmt.Sprintf("chess isattacked %s %d %s", c, r.Intn(64), f))
 			}
+			// the same query restricted to a list of piece kinds: any list, not only the ones the repository's callers pass
+			// (a queen must count exactly when Queen is listed, whatever else is)
+			lists := []string{"5", "4", "2", "45", "25", "65", "6", "3", "1", "321", "54", "52", "642", "5421", "123456", "654321", "", "55", "44"}
+			for i := 0; i < 8; i++ {
+				c := "w"
+				if r.Intn(2) == 0 {
+					c = "b"
+				}
+				sq := r.Intn(64)
+				if all := p.All(); all != 0 && r.Intn(2) == 0 { // a square in line with something
+					sqs := all.ToSquares()
+					sq = int(sqs[r.Intn(len(sqs))])
+					sq = (sq + []int{1, 8, 9, 7, 2, 16, 18, 14, 0}[r.Intn(9)]) % 64
+				}
+				o.do(fmt.Sprintf("chess isattackedby %s %d %s %s", c, sq, lists[r.Intn(len(lists))]+"x", f))
+				o.Count("isattackedby")
+			}
 			evalQueries(o, r, f, p, turn)
 		})
 	})
